@@ -19,6 +19,11 @@
                "peerT" / "peerI" (NFC-DEP+LLCP peer acting as target / initiator, answers k LLC exchanges,
                then releases) | "reader" (discovers our emulated Type 3 tag, sends k further commands, leaves)
                | "ioerror" / "unsupported" (the local device raises IOError / UnsupportedTargetError on discovery)
+               | "readerU" (a reader that discovers our local target again and again, but nfc.tag.emulate() cannot
+               build a tag emulation for what listen() returned: a 106A target that got a Type 2 / Type 4 Tag
+               command, a 212F target polled without a Type 3 Tag command, an NFC-DEP activation in card mode.
+               on-discover is still called for EVERY discovered target; without an emulation there is no
+               on-connect and connect() keeps listening)
                | "tagX" (a tag as in "tag" whose ACTIVATION is disturbed: some exchange of the tag type's activation
                sequence ends in a CommunicationError - timeout, transmission, protocol or broken-link error -
                once or persistently.  Whether the tag module recovers is the tag module's business; for connect()
@@ -50,7 +55,7 @@ CONSTANTS MaxOpts,     \* at most this many of rdwr/llcp/card are given (3 every
                        \* larger termAt, so only finite values are explored)
 
 Opt == {"rdwr", "llcp", "card"}
-Envs == {"nothing", "tag", "tagU", "tagX", "peerT", "peerI", "reader", "ioerror", "unsupported"}
+Envs == {"nothing", "tag", "tagU", "tagX", "peerT", "peerI", "reader", "readerU", "ioerror", "unsupported"}
 Roles == {"both", "initiator", "target"}
 StartupRes == {"keep", "drop", "wrong"}
 ObjOf(o) == CASE o = "rdwr" -> "tag" [] o = "llcp" -> "llc" [] o = "card" -> "emu"
@@ -64,7 +69,7 @@ Canon(c) ==
     /\ \A o \in Opt : ~c.conn[o] => c.rel[o]
     /\ ((~c.has["rdwr"] \/ c.su["rdwr"] # "keep" \/ ~c.disc["rdwr"] \/ ~c.conn["rdwr"]) => c.beep)
     /\ ((~c.has["llcp"] \/ c.su["llcp"] # "keep") => c.role = "both")
-    /\ (c.env \in {"nothing", "ioerror", "unsupported"} => c.k = 0)
+    /\ (c.env \in {"nothing", "ioerror", "unsupported", "readerU"} => c.k = 0)
     /\ \A o \in Opt : c.empty[o] => /\ c.has[o] /\ c.disc[o] /\ c.conn[o] /\ c.rel[o]
                                      /\ c.su[o] = (IF o = "card" THEN "drop" ELSE "keep")
     /\ (c.empty["rdwr"] => c.beep) /\ (c.empty["llcp"] => c.role = "both")
@@ -86,7 +91,7 @@ Variants(withDisc, isCard) == {Absent, EmptyDict(isCard), OV(TRUE, "drop", TRUE,
                               \cup Kept(withDisc)
 BeepOf(r) == IF r.has /\ r.su = "keep" /\ r.disc /\ r.conn /\ ~r.empty THEN BOOLEAN ELSE {TRUE}
 RoleOf(l) == IF l.has /\ l.su = "keep" /\ ~l.empty THEN Roles ELSE {"both"}
-KOf(e, kmax) == IF e \in {"nothing", "ioerror", "unsupported"} THEN {0} ELSE 0..kmax
+KOf(e, kmax) == IF e \in {"nothing", "ioerror", "unsupported", "readerU"} THEN {0} ELSE 0..kmax
 Mk(r, l, c, b, ro, e, k, t) ==
     [has |-> [o \in Opt |-> CASE o = "rdwr" -> r.has [] o = "llcp" -> l.has [] o = "card" -> c.has],
      su |-> [o \in Opt |-> CASE o = "rdwr" -> r.su [] o = "llcp" -> l.su [] o = "card" -> c.su],
@@ -364,7 +369,7 @@ RunEnd ==
 CardListen ==
     /\ pc = "card_listen"
     /\ IF ListenFails THEN Fail
-       ELSE IF cfg.env = "reader" /\ ~gone THEN Goto("card_disc") /\ UNCHANGED err
+       ELSE IF cfg.env \in {"reader", "readerU"} /\ ~gone THEN Goto("card_disc") /\ UNCHANGED err
        ELSE Goto("poll") /\ UNCHANGED err
     /\ Step("Listen")
     /\ UNCHANGED <<role, left, polls, envk, gone, found, cb, ret, led, termSeen>>
@@ -372,7 +377,8 @@ CardListen ==
 CardDiscover ==
     /\ pc = "card_disc"
     /\ cb' = Append(cb, CbRec("discover", "card", cfg.disc["card"]))
-    /\ IF cfg.disc["card"] THEN Goto("card_conn") ELSE Goto("poll")
+    \* accepted and nfc.tag.emulate() built a tag emulation: on-connect follows; otherwise keep listening
+    /\ IF cfg.disc["card"] /\ cfg.env # "readerU" THEN Goto("card_conn") ELSE Goto("poll")
     /\ Step("Discover")
     /\ UNCHANGED <<role, left, polls, envk, gone, found, ret, led, err, termSeen>>
 
@@ -474,5 +480,6 @@ W_TermInPresence == ~(pc = "led_off" /\ termSeen /\ led)
 W_ReleaseFalseLoops == ~(pc = "poll" /\ cb # <<>> /\ cb[Len(cb)].n = "release" /\ ~cb[Len(cb)].r)
 W_TagVanished == ~(pc = "led_off" /\ gone /\ ~termSeen)
 W_PeerReleased == ~(pc = "run_end" /\ gone /\ ~termSeen /\ role = "target")
+W_NotEmulatable == ~(pc = "poll" /\ cfg.env = "readerU" /\ cb # <<>> /\ cb[Len(cb)].n = "discover" /\ cb[Len(cb)].r)
 W_ReaderLeft == ~(pc = "card_rel" /\ gone /\ ~termSeen)
 =============================================================================
